@@ -122,6 +122,14 @@ def run_case(op, xs, ks, sizes, params):
                 if len(got) == 0:
                     return {'batch': bi, 'got': 'empty result', 'pandas': repr(want)}
                 got = got.iloc[-1]
+            if op.get('present_only'):
+                # every value present in the (window of the) data is reported with its exact statistic; entries for values
+                # that are not present may be missing or zero (the property does not ask for more)
+                bad = [k for k in want.index if k not in got.index or not eq(got[k], want[k])]
+                bad += [k for k in got.index if k not in want.index and not eq(got[k], 0)]
+                if bad:
+                    return {'batch': bi, 'got': repr(got.to_dict())[:300], 'pandas': repr(want.to_dict())[:300], 'wrong_keys': repr(bad)}
+                continue
             if not eq(got, want):
                 return {'batch': bi, 'got': repr(got)[:300], 'pandas': repr(want)[:300]}
     if op['kind'] == 'concat':
@@ -145,6 +153,29 @@ def ops_for(pid):
                     'build': lambda s, p: getattr(s[['x', 'y']], name)(), 'oracle': lambda d, p: getattr(d[['x', 'y']], name)()}
         return {'name': 'x.%s' % name, 'kind': P, 'index': 'int',
                 'build': lambda s, p: getattr(s.x, name)(), 'oracle': lambda d, p: getattr(d.x, name)()}
+
+    def vc(n=None):
+        if n is None:
+            return {'name': 'k.value_counts', 'kind': P, 'index': 'int', 'present_only': True,
+                    'build': lambda s, p: s.k.value_counts(), 'oracle': lambda d, p: d.k.value_counts()}
+        return {'name': 'window(n=%d).k.value_counts' % n, 'kind': P, 'index': 'int', 'present_only': True,
+                'build': lambda s, p: s.window(n=n).k.value_counts(), 'oracle': lambda d, p: d.k.iloc[-n:].value_counts()}
+
+    def gbd(name, ddof):
+        return {'name': "groupby('k').x.%s(ddof=%d)" % (name, ddof), 'kind': P, 'index': 'int',
+                'build': lambda s, p: getattr(s.groupby('k').x, name)(ddof=ddof),
+                'oracle': lambda d, p: getattr(d.groupby('k').x, name)(ddof=ddof)}
+
+    def wind(name, n, ddof):
+        return {'name': 'window(n=%d).x.%s(ddof=%d)' % (n, name, ddof), 'kind': P, 'index': 'int',
+                'build': lambda s, p: getattr(s.window(n=n).x, name)(ddof=ddof),
+                'oracle': lambda d, p: getattr(d.x.iloc[-n:], name)(ddof=ddof)}
+
+    def wingbd(name, n, ddof):
+        def oracle(d, p):
+            return getattr(d.iloc[-n:].groupby('k').x, name)(ddof=ddof)
+        return {'name': "window(n=%d).groupby('k').x.%s(ddof=%d)" % (n, name, ddof), 'kind': P, 'index': 'int',
+                'build': lambda s, p: getattr(s.window(n=n).groupby('k').x, name)(ddof=ddof), 'oracle': oracle}
 
     def gb(name, series_grouper=False):
         if series_grouper:
@@ -197,10 +228,12 @@ def ops_for(pid):
         return {'name': 'x.ewm(com=%s).mean' % com, 'kind': P, 'index': 'int', 'build': build, 'oracle': oracle, 'last_value': True}
     if pid == 'C06':
         return [red('sum'), red('count'), red('mean'), red('size'), red('sum', True), red('mean', True), red('count', True),
-                gb('sum'), gb('count'), gb('size'), gb('mean'), gb('var'), gb('std'), gb('sum', True), gb('mean', True)]
+                gb('sum'), gb('count'), gb('size'), gb('mean'), gb('var'), gb('std'), gb('sum', True), gb('mean', True),
+                gbd('var', 0), gbd('std', 0), vc()]
     if pid == 'C07':
         return [win('sum', 2), win('mean', 3), win('count', 1), win('var', 3), win('std', 2), win('size', 2),
-                wint('sum', 2), wint('mean', 1), wingb('sum', 2), wingb('mean', 3), wingb('count', 2), wingb('size', 3)]
+                wint('sum', 2), wint('mean', 1), wingb('sum', 2), wingb('mean', 3), wingb('count', 2), wingb('size', 3),
+                wind('var', 3, 0), wind('std', 3, 0), wingbd('var', 3, 0), wingbd('std', 2, 0), vc(1), vc(3)]
     if pid == 'C11':
         return [roll('sum', 2), roll('mean', 3), roll('max', 1), roll('count', 3), cum('cumsum'), cum('cumprod'), cum('cummax'),
                 cum('cummin'), expanding('sum'), expanding('mean'), ewm(1), ewm(0.5)]
